@@ -25,6 +25,11 @@ ETH_PK = bytes.fromhex("a491d1b0ecd9bb917989f0e74f0dea0422eac4a873e5e2644f368dff
 def cases(rng, tier):
     cs = []
     ks, ms = good_keys(rng, tier), msgs(rng, tier)
+    # the 48 public-key bytes used BOTH as an ordinary message and as possession-proof input, in both orders, inside one
+    # interpreter (first four cases = one chunk): the two tags must never be confused
+    ska, skb = rng.randrange(1, O.BLS_R), rng.randrange(1, O.BLS_R)
+    cs += [Case("bls.Sign", ["pop", ska, tb(enc_g1(O.g1(ska)))]), Case("bls.PopProve", [ska]),
+           Case("bls.PopProve", [skb]), Case("bls.Sign", ["pop", skb, tb(enc_g1(O.g1(skb)))])]
     for sk in [1, ETH_SK] + rng.sample(ks, 3 if tier == "quick" else len(ks)):
         cs.append(Case("bls.SkToPk", [sk]))
     n = 3 if tier == "quick" else 25
@@ -37,6 +42,8 @@ def cases(rng, tier):
     sigs = [G2Basic.Sign(rng.choice(ks), bytes([i])) for i in range(3 if tier == "quick" else 9)]
     cs.append(Case("bls.Aggregate", [tbl(sigs)]))
     cs.append(Case("bls.Aggregate", [tbl(sigs[:1])]))
+    cs.append(Case("bls.Aggregate", [tbl([sigs[0], sigs[0]])]))
+    cs.append(Case("bls.Aggregate", [tbl([sigs[0], sigs[1], sigs[0]])]))
     return cs
 
 
@@ -80,6 +87,37 @@ def pop_spec_pred(sk):
     return (POP.PopProve(sk) == want, f"PopProve({sk}) != compressed sk*hash_to_curve(pk, BLS_POP_ tag)")
 
 
+def pop_sign_history_pred(ska, skb):
+    """one interpreter: Sign(sk, pk) then PopProve(sk), and the reverse order with another key — each must equal the draft bytes"""
+    from py_ecc.bls import G2ProofOfPossession as POP
+    bad = []
+    pka, pkb = enc_g1(O.g1(ska)), enc_g1(O.g1(skb))
+    s1 = POP.Sign(ska, pka)
+    p1 = POP.PopProve(ska)
+    p2 = POP.PopProve(skb)
+    s2 = POP.Sign(skb, pkb)
+    if s1 != spec_sign("pop", ska, pka) or s2 != spec_sign("pop", skb, pkb):
+        bad.append("Sign(sk, pk) differs from the draft bytes (order-dependent)")
+    for sk, pk, pr in ((ska, pka, p1), (skb, pkb, p2)):
+        if pr != enc_g2(O.aff_mul(_spec_hash_to_g2(pk, POP_TAG), sk)):
+            bad.append("PopProve differs from the draft bytes (order-dependent)")
+    if s1 == p1 or s2 == p2:
+        bad.append("a possession proof equals the ordinary signature of the key bytes (tags confused)")
+    return (not bad, f"POP suite, pk bytes as message and as proof input: {bad}")
+
+
+def aggregate_spec_pred(sks, m):
+    """Aggregate = compressed group sum WITH multiplicities (duplicates count twice)"""
+    from py_ecc.bls import G2Basic
+    sigs = [G2Basic.Sign(k, m) for k in sks]
+    lst = [sigs[0], sigs[0]] + sigs[1:]
+    S = None
+    for x in lst:
+        S = O.aff_add(S, dec_g2(x))
+    got = G2Basic.Aggregate(lst)
+    return (got == enc_g2(S), "Aggregate of a list containing the same signature twice != encoding of the group sum")
+
+
 def tags_pred():
     from py_ecc.bls import G2Basic, G2MessageAugmentation, G2ProofOfPossession
     ok = (G2Basic.DST == DST["basic"] and G2MessageAugmentation.DST == DST["aug"] and G2ProofOfPossession.DST == DST["pop"]
@@ -94,7 +132,9 @@ def anchors_pred():
 
 
 def predicates(rng, tier, only=None):
-    ps = [Pred("tags", tags_pred, ()), Pred("anchors", anchors_pred, ())]
+    ps = [Pred("tags", tags_pred, ()), Pred("anchors", anchors_pred, ()),
+          Pred("pop-sign-history", pop_sign_history_pred, (rng.randrange(1, O.BLS_R), rng.randrange(1, O.BLS_R))),
+          Pred("aggregate-spec", aggregate_spec_pred, ([rng.randrange(1, O.BLS_R) for _ in range(2)], b"agg"))]
     ks, ms = good_keys(rng, tier), msgs(rng, tier)
     for sk in rng.sample(ks, 4 if tier == "quick" else len(ks)):
         ps.append(Pred("sktopk-spec", sktopk_spec_pred, (sk,)))
